@@ -15,6 +15,41 @@
 
 #include "oomd/Stats.h"
 
+#include <dlfcn.h>
+#include <cerrno>
+
+// accept(2) as the stats server sees it: the k-th call of a case can be made to fail with a generated errno (a
+// full descriptor table, memory pressure, a client that gave up while queued, an interrupting signal). The call is
+// failed without entering the kernel, so the connection that was waiting stays queued and the next accept() gets
+// it: a server that keeps accepting serves every client as before.
+static std::atomic<int> g_acceptCalls{0};
+static std::atomic<int> g_acceptFailAt[3] = {{-1}, {-1}, {-1}};
+static std::atomic<int> g_acceptErrno[3] = {{0}, {0}, {0}};
+static std::atomic<int> g_acceptFailed{0};
+#if defined(__has_feature)
+#if __has_feature(thread_sanitizer)
+#define VP_TSAN_BUILD 1
+// the sanitizer's own interceptor keeps its per-descriptor synchronisation state; going around it makes every
+// reuse of a descriptor number look like a race on the descriptor
+extern "C" int __interceptor_accept(int, struct sockaddr*, socklen_t*);
+#endif
+#endif
+extern "C" int accept(int fd, struct sockaddr* addr, socklen_t* len) {
+#ifdef VP_TSAN_BUILD
+  static auto real = &__interceptor_accept;
+#else
+  static auto real = reinterpret_cast<int (*)(int, struct sockaddr*, socklen_t*)>(dlsym(RTLD_NEXT, "accept"));
+#endif
+  int k = g_acceptCalls.fetch_add(1);
+  for (int i = 0; i < 3; i++)
+    if (g_acceptFailAt[i].load() == k) {
+      g_acceptFailed.fetch_add(1);
+      errno = g_acceptErrno[i].load();
+      return -1;
+    }
+  return real(fd, addr, len);
+}
+
 using namespace vp;
 using namespace vpgen;
 
@@ -221,6 +256,16 @@ Json::Value genProto() {
   for (auto& k : kKeys)
     if (P(60)) c["init"][k] = R(0, 50);
   (void)anyStall;
+  // transient accept() failures
+  if (P(25)) {
+    int nf = R(1, 3);
+    for (int i = 0; i < nf; i++) {
+      Json::Value f(Json::objectValue);
+      f["at"] = R(0, ns + 1);
+      f["errno"] = oneOf(std::vector<int>{EMFILE, ENFILE, ENOMEM, ENOBUFS, ECONNABORTED, EINTR, EPROTO, EAGAIN});
+      c["accept_faults"].append(f);
+    }
+  }
   return c;
 }
 
@@ -392,6 +437,18 @@ Verdict runProto(const Json::Value& c) {
   Session holdSession;
   std::thread holder;
   auto t0 = std::chrono::steady_clock::now();
+  g_acceptCalls = 0;
+  g_acceptFailed = 0;
+  for (int i = 0; i < 3; i++) g_acceptFailAt[i] = -1;
+  if (c.isMember("accept_faults")) {
+    int i = 0;
+    for (auto& f : c["accept_faults"]) {
+      if (i >= 3) break;
+      g_acceptErrno[i] = f["errno"].asInt();
+      g_acceptFailAt[i] = f["at"].asInt();
+      i++;
+    }
+  }
   {
     auto stats = Oomd::Stats::get_for_unittest(path);
     std::map<std::string, int> init;
@@ -515,6 +572,11 @@ Verdict runProto(const Json::Value& c) {
   v.nontrivial = abnormal;
   v.labels.push_back("proto");
   if (abnormal) v.labels.push_back("abnormal_session");
+  if (g_acceptFailed.load() > 0) {
+    v.labels.push_back("accept_failed");
+    v.nontrivial = true;
+  }
+  for (int i = 0; i < 3; i++) g_acceptFailAt[i] = -1;
   if (c.isMember("bigkeys")) v.labels.push_back(c.get("hold_during_shutdown", false).asBool() ? "big_reply_unread_during_shutdown" : "big_reply_read_after_timeout");
   return v;
 }
